@@ -624,6 +624,9 @@ def write_evidence_file(mod, prop, tier, seed, report, exit_code):
             'hash_seeds_cycled': HASH_SEEDS,
             'time_zone_classes': TZ_CLASSES,
             'cpu_count_classes': CPU_CLASSES,
+            'clock_seam_variants': 'worker classes 3, 7, 11, 15 keep the real datetime module in pyg_base._drange (exact-type tests against datetime '
+                                   'behave as shipped there); all others shim it; pyg_base._dates is always shimmed',
+            'address_space': 'workers run without address-space randomisation and with a fixed environment, so that id()-dependent behaviour replays',
             'stopped_by': report['stopped_by'],
             'requested_runs': report['cfg']['runs'],
             'known_finding_hits': agg['known_hits'],
